@@ -262,7 +262,9 @@ func checkCoercionErrors(r *Run, prog *Program, a *Anchors, pfx string) {
 	for _, m := range a.Matchers {
 		ps := NewPathSim(prog)
 		ps.Havoc = true
-		ps.Inline = func(c *ssa.Function) bool { return isPureReflectHelper(prog, c) }
+		ps.Inline = func(c *ssa.Function) bool {
+			return isPureReflectHelper(prog, c) || (bexprHelper(prog, a, c) && !recursive(prog, c)) // the parts a matcher is split into
+		}
 		n := 0
 		for _, sm := range ps.Run(m) {
 			if sm.Ret == nil || len(sm.Results) != 2 {
@@ -347,7 +349,9 @@ func checkElementTransparency(r *Run, prog *Program, a *Anchors, pfx string) {
 	n := 0
 	for _, m := range a.Matchers {
 		ps := NewPathSim(prog)
-		ps.Inline = func(c *ssa.Function) bool { return isPureReflectHelper(prog, c) }
+		ps.Inline = func(c *ssa.Function) bool {
+			return isPureReflectHelper(prog, c) || (bexprHelper(prog, a, c) && !recursive(prog, c)) // the parts a matcher is split into
+		}
 		bad := map[ssa.Instruction]string{}
 		seen := map[ssa.Instruction]bool{}
 		ps.OnEvent = func(st *pstate, ev *Event) {
